@@ -12,6 +12,7 @@ anywhere in the 32-bit range:
  * a response matching no outstanding request changes nothing.
 -/
 import UpfVerif.Model.Core
+import UpfVerif.Lemmas.CoreHandlers
 import UpfVerif.Lemmas.Core
 
 namespace UpfVerif.C09
@@ -144,6 +145,76 @@ theorem rx_timeouts_keep_tx (evs : List ((String × BitVec 24) × Env)) (st : St
     apply ih
     · rw [(rx_timeout_keeps_tx acc.1 e.1.1 e.1.2 e.2).1]; exact h1
     · rw [(rx_timeout_keeps_tx acc.1 e.1.1 e.1.2 e.2).2, h2]; rfl
+
+/-- does the event concern the outstanding request `k` — its response, its own timer expiry — or is it a report (which sends
+    a NEW request and so adds to the table)? -/
+def Event.concernsTx (k : String × BitVec 24) : Event → Prop
+  | .srResponse a q _ => (a, q) = k
+  | .otherResponse a q => (a, q) = k
+  | .txTimeout a q => (a, q) = k
+  | .report _ _ => True
+  | _ => False
+
+/-- **an outstanding request is touched by nothing but its own response and its own timer**: requests received (whatever they
+    do), responses and expiries of other requests, retention expiries — none retries it, abandons it or changes its retry
+    count -/
+theorem outstanding_untouched (st : State) (k : String × BitVec 24) (e : Event) (env : Env) (hk : ¬ Event.concernsTx k e) :
+    alGet (step st e env).1.tx k = alGet st.tx k := by
+  cases e with
+  | ignored => simp [step]
+  | rxTimeout addr seq => simp [step]
+  | report x items => exact absurd trivial hk
+  | request addr seq r =>
+    unfold step
+    simp only
+    split
+    · split <;> rfl
+    · have h := handleReq_tx { st with rx := alSet st.rx (addr, seq) {} } addr seq r env { pending := env.pending }
+      rw [h.1]
+  | srResponse addr seq seid =>
+    have hne : k ≠ (addr, seq) := fun hc => hk (by simp [Event.concernsTx, hc])
+    unfold step
+    simp only
+    split
+    · rfl
+    · rename_i tx _
+      split
+      · split
+        · exact alGet_alDel_other _ _ _ hne
+        · rename_i s _
+          have hd := deleteSess_same { st with tx := alDel st.tx (addr, seq) } s.rnode s.localID env { pending := env.pending }
+          generalize State.deleteSess { st with tx := alDel st.tx (addr, seq) } s.rnode s.localID env { pending := env.pending } = R at hd
+          obtain ⟨st2, c2, s2, rs2⟩ := R
+          simp only
+          rw [hd.2.1]
+          exact alGet_alDel_other _ _ _ hne
+      · exact alGet_alDel_other _ _ _ hne
+  | otherResponse addr seq =>
+    have hne : k ≠ (addr, seq) := fun hc => hk (by simp [Event.concernsTx, hc])
+    unfold step
+    simp only
+    split
+    · rfl
+    · exact alGet_alDel_other _ _ _ hne
+  | txTimeout addr seq =>
+    have hne : k ≠ (addr, seq) := fun hc => hk (by simp [Event.concernsTx, hc])
+    unfold step
+    simp only
+    split
+    · rfl
+    · split
+      · exact alGet_alSet_other _ _ _ _ hne
+      · exact alGet_alDel_other _ _ _ hne
+
+/-- … hence after ANY history of such events the request is outstanding exactly as it was — same message, same retry count -/
+theorem outstanding_after_any_history (h : List (Event × Env)) (st : State) (k : String × BitVec 24)
+    (hk : ∀ p ∈ h, ¬ Event.concernsTx k p.1) :
+    alGet (h.foldl (fun st (p : Event × Env) => (step st p.1 p.2).1) st).tx k = alGet st.tx k := by
+  induction h generalizing st with
+  | nil => rfl
+  | cons p h ih =>
+    simp only [List.foldl_cons]
+    rw [ih _ (fun q hq => hk q (by simp [hq])), outstanding_untouched st k p.1 p.2 (hk p (by simp))]
 
 /-! ### the defect repaired by the `fix:` commit, and non-vacuity -/
 
